@@ -233,6 +233,32 @@ func RunIO(w *World, idx int) {
 			}
 		}
 		kind := []string{"write", "write", "write", "read", "sync", "unmap"}[r.Intn(6)]
+		if w.Prop == "C04" && r.Chance(45) {
+			kind = "read"
+		}
+		// a replica marked failed by a control-plane call (snapshot) or by the operator is detached asynchronously
+		if r.Chance(5) {
+			if fs, modes := w.Attached(); len(fs) > 1 {
+				f := fs[r.Intn(len(fs))]
+				if modes[f] == types.RW && r.Bool() {
+					f.mu.Lock()
+					f.SnapFail = true
+					f.mu.Unlock()
+					w.rec(Step{K: "snapshot", Note: "fails on " + f.Addr})
+					w.C.Snapshot(fmt.Sprintf("io%d", i))
+					f.mu.Lock()
+					f.SnapFail = false
+					f.mu.Unlock()
+				} else {
+					w.rec(Step{K: "setmode", Addr: f.Addr, Note: "ERR"})
+					w.C.SetReplicaMode(f.Addr, types.ERR)
+				}
+				// reads issued right away must already avoid it
+				w.readSweep()
+				w.CheckSettled("marked-ERR")
+				continue
+			}
+		}
 		o, l := w.RandRange()
 		var faults map[*Fake]Outcome
 		if r.Chance(55) {
